@@ -2,6 +2,7 @@
 From Coq Require Import Bool ZArith List.
 From K Require Import Lib.Types Model.Machine Model.Bus Model.Cost Model.Addressing Model.Alu Model.Exec Spec.MemMap Spec.ISA
   Proofs.FlagProofs Proofs.AluProofs Proofs.RegProofs Proofs.BusProofs Proofs.StepProofs Proofs.MemProofs Proofs.CtlProofs Proofs.MovProofs.
+From K Require Import Proofs.StepRefines.
 Open Scope Z_scope.
 
 (* MOV Rs,Rd (B/W/L): the value of the source lane is copied unchanged into the destination lane, N and Z
@@ -112,6 +113,20 @@ Theorem mov_pre_decrement_store :
                 (incdec_charge z (ea_addr z s (EPreDec r))).
 Proof. exact mov_predec_proof. Qed.
 
+(* ---- from the instruction word in memory to the reference semantics, in one statement ----
+   s is ANY machine state whose PC is even and whose instruction word w can be fetched; w1..w4 are whatever follows it.
+   If the operation-code map decodes w as the two-byte instruction i, then one step of the model (fetch, dispatch, handler,
+   charge of one instruction-fetch cycle at the instruction's address) ends in exactly the state the reference semantics
+   sem_ref assigns (plus the bookkeeping field operating_pc). *)
+Theorem step_mov_register :
+  forall s w w1 w2 w3 w4 z rs rd n,
+    cpu_ok s -> bus_bytes_ok s -> fault s = false -> pc s mod 2 = 0 -> 0 <= pc s -> pc s + 2 < 4294967296 ->
+    mem_read SW s (pc s) = Some w ->
+    decode_ref w w1 w2 w3 w4 = Some (IMovRR z rs rd, 2) ->
+    cs KI 1 (post_fetch s) = Ok n (post_fetch s) ->
+    exists s', sem_ref (IMovRR z rs rd) 2 s = Some s' /\ step s = Ok n (set_opc (pc s) s').
+Proof. exact step_mov_rr_proof. Qed.
+
 Print Assumptions mov_register_refines.
 Print Assumptions mov_flags_rule.
 Print Assumptions byte_lane_read.
@@ -127,3 +142,4 @@ Print Assumptions mov_absolute8_load.
 Print Assumptions mov_absolute8_store.
 Print Assumptions mov_post_increment_load.
 Print Assumptions mov_pre_decrement_store.
+Print Assumptions step_mov_register.
